@@ -97,12 +97,23 @@ def check_value(sh, value, desc, cfgs):
     return len(texts)
 
 
+def build_builtin(seed, i):
+    rng = V.rng_for('c03b', seed, i)
+    recipe = V.rand_tree(rng)
+    if i % 4 == 2:
+        # the same container object at two places of the value
+        aliased = V.alias_recipe(recipe, rng)
+        if aliased is not None:
+            return V.build(aliased, V.BuildEnv(share={}))
+    return V.build(recipe)
+
+
 def sources(sh, quick):
     """yields (kind, desc, value)"""
     seed = sh.seed
     n = 1500 if quick else 12000
     for i in range(n):
-        yield 'builtin', lambda i=i: ({'gen': 'builtin', 'i': i, 'seed': seed}, V.build(V.rand_tree(V.rng_for('c03b', seed, i))))
+        yield 'builtin', lambda i=i: ({'gen': 'builtin', 'i': i, 'seed': seed}, build_builtin(seed, i))
     for i in range(n):
         def commented(i=i):
             rng = V.rng_for('c03c', seed, i)
@@ -118,6 +129,8 @@ def sources(sh, quick):
         yield 'commented', commented
     insts = list(c07.gen_instances(V.rng_for('c03s', seed), quick))
     for i, (tname, inst) in enumerate(insts):
+        if tname == 'totality only':
+            continue        # values without an evaluable form (addresses in the text): C07 prints them for totality, nothing to parse here
         yield 'stdlib', lambda i=i, tname=tname, inst=inst: ({'gen': 'stdlib', 'i': i, 'seed': seed, 'type': tname, 'repr': repr(inst)[:200]}, [inst, {'k': inst}])
     k = 0
     for base in c08.BASES:
@@ -165,7 +178,7 @@ def finalize(m):
 def rebuild(desc, tier='quick'):
     g = desc['gen']
     if g == 'builtin':
-        return V.build(V.rand_tree(V.rng_for('c03b', desc['seed'], desc['i'])))
+        return build_builtin(desc['seed'], desc['i'])
     if g == 'commented':
         return V.build(desc['recipe'], c09.ENVB)
     if g == 'stdlib':
